@@ -6,8 +6,16 @@ type Seq uint64
 
 var seq uint64
 
+// Set raises the counter to s; it never lowers it, so sequences handed out
+// after loading a database are above everything that database has persisted,
+// whatever the counter's value was before.
 func Set(s Seq) {
-	atomic.CompareAndSwapUint64(&seq, 0, uint64(s))
+	for {
+		cur := atomic.LoadUint64(&seq)
+		if cur >= uint64(s) || atomic.CompareAndSwapUint64(&seq, cur, uint64(s)) {
+			return
+		}
+	}
 }
 
 func Next() Seq {
